@@ -14,6 +14,18 @@ Definition leaf_size_guard (l : leaf) : bool :=
   | LTrun _ _ _ _ samples => lenN samples <? 4294967296
   | LStts _ _ es => lenN es <? 4294967296
   | LHdlr _ _ _ ht _ _ => lenN ht =? 4
+  | LStsz _ _ uni num ss => if 0 <? uni then lenN ss =? 0 else lenN ss =? num
+  | LTab n _ _ _ items => (lenN n =? 4) && (lenN items <? 4294967296)
+  | LCtts _ _ _ offs => lenN offs <? 4294967296
+  | LElst _ _ es => lenN es <? 4294967296
+  | LSaiz _ f at_ _ dflt cnt info => (negb (has f 1) || (lenN at_ =? 4)) && (negb (dflt =? 0) || (cnt <=? lenN info))
+  | LSaio _ f at_ _ os => (negb (has f 1) || (lenN at_ =? 4)) && (lenN os <? 4294967296)
+  | LSbgp _ _ gt _ es => (lenN gt =? 4) && (lenN es <? 4294967296)
+  | LTenc _ _ _ _ _ _ kid _ => lenN kid =? 16
+  | LFrma f => lenN f =? 4
+  | LFullOnly n _ _ => lenN n =? 4
+  | LTfra _ _ _ _ _ _ es => lenN es <? 4294967296
+  | LPssh _ _ sid kids _ => (lenN sid =? 16) && forallb (fun k => lenN k =? 16) kids
   | _ => true
   end.
 
@@ -30,6 +42,40 @@ Proof. unfold wr_pair. now rewrite lenN_app, !lenN_be_enc. Qed.
 Lemma lenN_wr_sref p : lenN (wr_sref p) = 12.
 Proof. unfold wr_sref. now rewrite !lenN_app, !lenN_be_enc. Qed.
 
+Lemma lenN_wr_triple p : lenN (wr_triple p) = 12.
+Proof. unfold wr_triple. now rewrite !lenN_app, !lenN_be_enc. Qed.
+
+Lemma lenN_wr_elst w e : lenN (wr_elst w e) = 2 * N.of_nat w + 4.
+Proof. destruct e as [[[d t] ri] rf]. unfold wr_elst. rewrite !lenN_app, !lenN_be_enc. lia. Qed.
+
+Lemma lenN_wr_tfra w a b c e : lenN (wr_tfra w a b c e) = 2 * N.of_nat w + N.of_nat a + N.of_nat b + N.of_nat c.
+Proof. destruct e as [[[[t mo] x] y] z]. unfold wr_tfra. rewrite !lenN_app, !lenN_be_enc. lia. Qed.
+
+Lemma lenN_wr_stsc es single : forall ids, lenN (wr_stsc es single ids) = 12 * lenN es.
+Proof.
+  induction es as [|[fc spc] t IH]; intros ids; [reflexivity|].
+  cbn [wr_stsc]. rewrite !lenN_app, !lenN_be_enc, IH, lenN_cons. lia.
+Qed.
+
+Lemma lenN_wr_ctts offs : forall ends, lenN ends = 1 + lenN offs -> lenN (wr_ctts ends offs) = 8 * lenN offs.
+Proof.
+  induction offs as [|o ot IH]; intros ends H; [destruct ends; reflexivity|].
+  destruct ends as [|e0 [|e1 et]]; rewrite ?lenN_cons, ?lenN_nil in H; try lia.
+  change (wr_ctts (e0 :: e1 :: et) (o :: ot)) with
+    (be_enc 4 (u32 (e1 + 4294967296 - e0)) ++ be_enc 4 o ++ wr_ctts (e1 :: et) ot).
+  rewrite !lenN_app, !lenN_be_enc, IH, lenN_cons by (rewrite lenN_cons; lia). lia.
+Qed.
+
+Lemma lenN_firstn {A} (l : list A) n : n <= lenN l -> lenN (firstn (N.to_nat n) l) = n.
+Proof. unfold lenN. intros H. rewrite firstn_length. lia. Qed.
+
+Lemma lenN_flat_id (kids : list (list N)) : forallb (fun k => lenN k =? 16) kids = true ->
+  lenN (flat_map (fun k => k) kids) = 16 * lenN kids.
+Proof.
+  induction kids as [|k t IH]; intros H; [reflexivity|]. cbn [forallb] in H. apply andb_true_iff in H.
+  destruct H as [Hk Ht]. apply N.eqb_eq in Hk. cbn [flat_map]. rewrite lenN_app, lenN_cons, IH, Hk by assumption. lia.
+Qed.
+
 Lemma lenN_unity : lenN unity_matrix = 36.
 Proof. reflexivity. Qed.
 
@@ -43,10 +89,18 @@ Ltac lens :=
                | rewrite (lenN_flat_map_const _ _ _ (lenN_wr_tsample _))
                | rewrite (lenN_flat_map_const _ _ _ lenN_wr_pair)
                | rewrite (lenN_flat_map_const _ _ _ lenN_wr_sref)
+               | rewrite (lenN_flat_map_const _ _ _ lenN_wr_triple)
+               | rewrite (lenN_flat_map_const _ _ _ (lenN_wr_elst _))
+               | rewrite (lenN_flat_map_const _ _ _ (lenN_wr_tfra _ _ _ _))
+               | rewrite (lenN_flat_map_const _ _ _ (lenN_be_enc _))
+               | rewrite lenN_wr_stsc
                | match goal with Hn : lenN (leaf_name _) = 4 |- _ => rewrite Hn end ].
 
 Lemma leaf_name_len l : leaf_size_guard l = true -> lenN (leaf_name l) = 4.
-Proof. destruct l; cbn [leaf_size_guard leaf_name]; intros H; try reflexivity; now apply N.eqb_eq in H. Qed.
+Proof.
+  destruct l; cbn [leaf_size_guard leaf_name]; intros H; try reflexivity;
+    try (apply andb_true_iff in H; destruct H as [H _]); now apply N.eqb_eq in H.
+Qed.
 
 (* bytes written by a leaf encoder = Size() *)
 Lemma leaf_size l b :
@@ -74,6 +128,40 @@ Proof.
   - (* mdhd *) cbn [size_leaf]. destruct (version =? 1); lens; lia.
   - (* hdlr *) apply N.eqb_eq in G. cbn [size_leaf]. destruct lacksNull; lens; lia.
   - (* stts *) apply N.ltb_lt in G. cbn [size_leaf]. unfold u32. rewrite N.mod_small by assumption. lens. lia.
+  - (* stsc *) destruct ((single =? 0) && (lenN ids <? lenN entries)); [discriminate|]. injection Eb as <-. lens. lia.
+  - (* stsz *) cbn [size_leaf]. destruct (0 <? uniform); apply N.eqb_eq in G.
+    + rewrite G. cbn [N.eqb]. lens. lia.
+    + destruct (lenN sizes =? 0) eqn:E0; [apply N.eqb_eq in E0|]; lens; lia.
+  - (* stco / stss / co64 *) apply andb_true_iff in G. destruct G as [_ G]. apply N.ltb_lt in G.
+    cbn [size_leaf]. unfold u32. rewrite N.mod_small by assumption. lens. lia.
+  - lens. lia.
+  - (* ctts *) destruct (negb (lenN ends =? 1 + lenN offsets)) eqn:Ec; [discriminate|]. injection Eb as <-.
+    apply negb_false_iff, N.eqb_eq in Ec. apply N.ltb_lt in G.
+    cbn [size_leaf]. unfold u32. rewrite N.mod_small by assumption. lens. rewrite lenN_wr_ctts by assumption. lia.
+  - (* elst *) apply N.ltb_lt in G. cbn [size_leaf]. unfold u32. rewrite N.mod_small by assumption.
+    destruct (version =? 1); lens; lia.
+  - (* saiz *) destruct ((dflt =? 0) && (lenN info <? count)); [discriminate|]. injection Eb as <-.
+    apply andb_true_iff in G. destruct G as [G1 G2]. cbn [size_leaf].
+    destruct (has flags 1); cbn [negb orb] in G1; [apply N.eqb_eq in G1|];
+      (destruct (dflt =? 0); cbn [negb orb] in G2; [apply N.leb_le in G2|]; lens; rewrite ?lenN_firstn by assumption; lia).
+  - (* saio *) apply andb_true_iff in G. destruct G as [G1 G2]. apply N.ltb_lt in G2. cbn [size_leaf].
+    unfold u32. rewrite N.mod_small by assumption.
+    destruct (has flags 1); cbn [negb orb] in G1; [apply N.eqb_eq in G1|]; (destruct (version =? 0); lens; lia).
+  - (* sbgp *) apply andb_true_iff in G. destruct G as [G1 G2]. apply N.eqb_eq in G1. apply N.ltb_lt in G2.
+    cbn [size_leaf]. unfold u32, wr_if. rewrite N.mod_small by assumption. destruct (version =? 1); lens; lia.
+  - (* prft *) cbn [size_leaf]. destruct (version =? 0); lens; lia.
+  - (* tenc *) apply N.eqb_eq in G. cbn [size_leaf].
+    destruct (version =? 0); cbn [chunk nth]; (destruct ((isProt =? 1) && (ivSize =? 0)); lens; lia).
+  - (* frma *) apply N.eqb_eq in G. lens. lia.
+  - lens. lia.
+  - (* smhd *) cbn [chunk nth]. lens. lia.
+  - lens. lia.
+  - lens. lia.
+  - (* mehd *) cbn [size_leaf]. destruct (version =? 0); lens; lia.
+  - (* tfra *) apply N.ltb_lt in G. cbn [size_leaf]. unfold u32, tfra_w, tfra_n. rewrite N.mod_small by assumption.
+    destruct (version =? 1); lens; lia.
+  - (* pssh *) apply andb_true_iff in G. destruct G as [G1 G2]. apply N.eqb_eq in G1. cbn [size_leaf].
+    destruct (0 <? version); lens; rewrite ?lenN_flat_id by assumption; lia.
 Qed.
 
 (* ---------------------------------------------------------------- header field of the written bytes *)
